@@ -67,7 +67,7 @@ use octseq::octets::Octets;
 use ring::{hkdf::KeyType, hmac, rand};
 
 use crate::base::header::HeaderSection;
-use crate::base::iana::{Class, Rcode, TsigRcode};
+use crate::base::iana::{Class, Rcode, Rtype, TsigRcode};
 use crate::base::message::Message;
 use crate::base::message_builder::{
     AdditionalBuilder, MessageBuilder, PushError,
@@ -1493,8 +1493,24 @@ impl<'a, Octs: Octets + ?Sized> MessageTsig<'a, Octs> {
     /// section, that it is the last record in this section. If that is true,
     /// returns the parsed TSIG records.
     fn from_message(msg: &'a Message<Octs>) -> Result<Self, TsigError> {
-        let mut section =
-            msg.additional().map_err(|_| TsigError::ParseError)?;
+        // RFC 8945, section 5.2: a TSIG record in any other position than
+        // the end of the additional section is a format error. So look
+        // through the answer and authority sections first.
+        let mut section = msg.answer().map_err(|_| TsigError::ParseError)?;
+        for _ in 0..2 {
+            for record in section.by_ref() {
+                let record = record.map_err(|_| TsigError::ParseError)?;
+                if record.rtype() == Rtype::TSIG {
+                    return Err(TsigError::Position);
+                }
+            }
+            section = section
+                .next_section()
+                .map_err(|_| TsigError::ParseError)?
+                .expect("answer and authority have a next section");
+        }
+
+        // This is the additional section now.
 
         // Find the first TSIG record, which we will assert to be the last
         // one to verify that it is the only one.
